@@ -71,7 +71,7 @@ def corpus():
 
 
 def generate(rng, tier):
-    n = 2000 if tier == "quick" else 60000
+    n = 5000 if tier == "quick" else 60000
     return [gen_one(rng) for _ in range(n)]
 
 
